@@ -75,6 +75,10 @@ class GuardIR:
     type: str
     children: Tuple["GuardIR", ...] = ()
     params: Optional[Dict[str, Any]] = None
+    # 📝 True when the operands were written under the guard's own
+    #    ``children`` key rather than inside ``params``; the emitter then has
+    #    to write them out, since ``params`` alone does not carry them.
+    inline_children: bool = False
 
     @property
     def is_composite(self) -> bool:
@@ -91,6 +95,8 @@ class GuardIR:
         """
         if self.children:
             out: List[str] = []
+            if self.type not in _COMPOSITE_OPERATORS:
+                out.append(self.type)
             for child in self.children:
                 out.extend(child.leaf_names())
             return tuple(out)
@@ -278,18 +284,30 @@ def parse_guard(raw: Any) -> Optional[GuardIR]:
         return None
 
     params = raw.get("params")
+    # 🔍 Operands are accepted in the same places the engine's
+    #    GuardDefinition reads them from: the guard's own `children`, else
+    #    params.guards / params.children, else (composites only) params.guard.
+    nested_raw = raw.get("children")
+    inline_children = bool(nested_raw)
+    if not nested_raw and isinstance(params, dict):
+        nested_raw = params.get("guards") or params.get("children")
+        if (
+            not nested_raw
+            and guard_type in _COMPOSITE_OPERATORS
+            and params.get("guard") is not None
+        ):
+            nested_raw = [params["guard"]]
     children: List[GuardIR] = []
-    if isinstance(params, dict):
-        # 🔍 Composite guards nest their operands under params.guards.
-        for nested in _as_list(params.get("guards")):
-            parsed = parse_guard(nested)
-            if parsed is not None:
-                children.append(parsed)
+    for nested in _as_list(nested_raw):
+        parsed = parse_guard(nested)
+        if parsed is not None:
+            children.append(parsed)
 
     return GuardIR(
         type=guard_type,
         children=tuple(children),
         params=params if isinstance(params, dict) else None,
+        inline_children=inline_children,
     )
 
 
